@@ -122,7 +122,9 @@ var c03Placements = []c03Placement{
 	{"top", func(c string) string { return "<b>[pre]</b>" + c + "<b>[post]</b>" }, 1},
 	{"nested", func(c string) string { return "<div><b>[pre]</b>" + c + "<b>[post]</b></div>" }, 1},
 	{"in-vfor", func(c string) string { return `<div v-for="q in two"><b>[pre]</b>` + c + `<b>[post]</b></div>` }, 2},
-	{"in-vif-branch", func(c string) string { return `<div v-if="yes"><b>[pre]</b>` + c + `<b>[post]</b></div><div v-else>[never]</div>` }, 1},
+	{"in-vif-branch", func(c string) string {
+		return `<div v-if="yes"><b>[pre]</b>` + c + `<b>[post]</b></div><div v-else>[never]</div>`
+	}, 1},
 	{"in-template", func(c string) string { return `<template><b>[pre]</b>` + c + `<b>[post]</b></template>` }, 1},
 	{"no-neighbours", func(c string) string { return c }, 1},
 }
